@@ -4,7 +4,7 @@ real code: GeoBox | & overlap_roi enclosing snap_to, geobox_union/intersection_c
 V: spec/geobox/GridTrace.tla."""
 import json
 
-from ..core import outcome_of
+from ..core import idx, outcome_of
 
 BASES = {"northup": (8, 0, 96, 0, -8, 160), "mirrorx": (-8, 0, 96, 0, -8, 160), "flipy": (8, 0, 96, 0, 8, 160),
          "rot90": (0, 8, 96, 8, 0, 160), "pythag": (6, -8, 100, 8, 6, 200), "nonsquare": (8, 0, 96, 0, -16, 160)}
@@ -38,7 +38,7 @@ def _gbox(base, r, crs=CRS_A, sub=(0, 0), scale=1, lin=(2, 0, 0, 2)):
 def _enc(g, s16=False):
     a = g.affine
     k = 16 if s16 else 1
-    return [int(g.shape[0]), int(g.shape[1]), _lat(a.a), _lat(a.b), _lat(a.c, k), _lat(a.d), _lat(a.e), _lat(a.f, k)]
+    return [idx(g.shape[0]), idx(g.shape[1]), _lat(a.a), _lat(a.b), _lat(a.c, k), _lat(a.d), _lat(a.e), _lat(a.f, k)]
 
 
 def _res(fn, enc):
@@ -51,7 +51,7 @@ def _res(fn, enc):
 
 
 def _roi(roi):
-    return [int(roi[0].start), int(roi[0].stop), int(roi[1].start), int(roi[1].stop)]
+    return [idx(roi[0].start), idx(roi[0].stop), idx(roi[1].start), idx(roi[1].stop)]
 
 
 def execute(c):
